@@ -30,7 +30,7 @@ RULE = (
     "arrays (with surplus / missing dims) and ndarrays of right and wrong shapes; set_values with right / wrong "
     "shapes / a FlodymArray / a number; sum_to, sum_over, cast_to valid and invalid; cumsum / abs / sign in place "
     "and not; to_df -> from_df and set_values_from_df with clean and faulty frames (NaN cell, missing row, "
-    "unknown item, duplicate). Invariant on every register after every transition; failed transitions must "
+    "unknown item, duplicate); stock compute() calls that fail for one label (singular survival table, NaN, missing parameters) must leave stock / inflow / outflow untouched. Invariant on every register after every transition; failed transitions must "
     "change nothing. State key = per register (dims signature, dtype, value bytes): exact. E1: validator table "
     "over all arrangements of {t,p,q} (3 items each). Non-trivial = transition that changes a register or raises."
 )
@@ -524,6 +524,51 @@ def run_validator_case(cls_name, own, role, other):
     return ("accepted" if accept else "refused-as-required"), None
 
 
+def run_failcompute_case(solver, fault, where, npr):
+    """a compute() that raises (singular survival table or NaN for ONE label, parameters missing) must
+    leave stock, inflow and outflow exactly as they were"""
+    import flodym
+
+    case = dict(kind="failcompute", solver=solver, fault=fault, where=where, npr=npr)
+    from flodym import Dimension, DimensionSet
+
+    dims = DimensionSet(dim_list=[Dimension(name="Time", letter="t", items=[2000, 2001, 2002, 2003], dtype=int), Dimension(name="Product", letter="p", items=[f"p{i+1}" for i in range(npr)])])
+    cls = flodym.InflowDrivenDSM if solver == "inflow" else flodym.StockDrivenDSM
+    kw = {} if solver == "inflow" else dict(solver=solver)
+    lm = flodym.FixedLifetime(dims=dims)
+    s = cls(dims=dims, lifetime_model=lm, **kw)
+    mean = np.full((4, npr), 2.5)
+    if fault == "singular":
+        mean[:, where] = 0.0  # nothing of that product survives its first interval: singular table
+    if fault != "no-parameters":
+        lm.set_prms(mean=mean)
+    drv = s.inflow if solver == "inflow" else s.stock
+    drv.values[...] = 10.0 + np.arange(4 * npr).reshape(4, npr)
+    if fault == "nan":
+        drv.values[2, where] = np.nan
+    s.inflow.values[...] = s.inflow.values + 0.25
+    s.outflow.values[...] = 7.5
+    if solver == "inflow":
+        s.stock.values[...] = 3.25
+    before = [a.values.copy() for a in (s.stock, s.inflow, s.outflow)]
+    st, info = attempt(lambda: s.compute())
+    if st != "raised":
+        return "compute-did-not-raise", None
+    after = [a.values for a in (s.stock, s.inflow, s.outflow)]
+    for nm, b, a in zip(("stock", "inflow", "outflow"), before, after):
+        if a.shape != b.shape or not np.array_equal(a, b, equal_nan=True):
+            return "fail", dict(case=case, tags=dict(kind="changed-on-error", op="compute"), what=f"{cls.__name__}(solver={solver}) compute() raised ({info[:80]}) for fault '{fault}' at product #{where} of {npr} but changed the {nm} array")
+    return "failed-compute-changed-nothing", None
+
+
+def failcompute_cases():
+    for solver in ("lapack", "manual", "inflow"):
+        for fault in ("singular", "nan", "no-parameters"):
+            for npr in (1, 2, 3):
+                for where in range(npr):
+                    yield (solver, fault, where, npr)
+
+
 def validator_cases():
     arrs = ["".join(a) for a in S.arrangements("tpq")]
     for cls_name in ("SimpleFlowDrivenStock", "InflowDrivenDSM", "StockDrivenDSM"):
@@ -550,10 +595,21 @@ def units(tier, seed):
     vc = list(validator_cases())
     for i in range(0, len(vc), 100):
         out.append(dict(kind="validators", lo=i, hi=i + 100))
+    out.append(dict(kind="failcompute"))
     return out
 
 
 def run_unit(u):
+    if u["kind"] == "failcompute":
+        res = dict(evals=0, nontrivial=0, outcomes={}, fails=[], samples=[], states=0, transitions=0, traces=0)
+        for c in failcompute_cases():
+            oc, f = run_failcompute_case(*c)
+            res["evals"] += 1
+            res["nontrivial"] += 1 if oc != "compute-did-not-raise" else 0
+            res["outcomes"][oc] = res["outcomes"].get(oc, 0) + 1
+            if f:
+                res["fails"].append(f)
+        return res
     if u["kind"] == "validators":
         res = dict(evals=0, nontrivial=0, outcomes={}, fails=[], samples=[], states=0, transitions=0, traces=0)
         for c in list(validator_cases())[u["lo"] : u["hi"]]:
@@ -579,6 +635,9 @@ def run_unit(u):
 
 
 def replay(case):
+    if case["kind"] == "failcompute":
+        oc, f = run_failcompute_case(case["solver"], case["fault"], case["where"], case["npr"])
+        return [f] if f else []
     if case["kind"] == "validator":
         oc, f = run_validator_case(case["cls"], case["own"], case["role"], case["other"])
         return [f] if f else []
